@@ -146,10 +146,14 @@ def run_e2e(ctx):
         url, opts, seed, parts = build(t, rand)
         k = key_of(rand)
         sub = (opts.get("subprotocols") or [None])[0]
+        # every third wss case with an SNI override: the name presented to the TLS peer is not the request's host
+        sslopt = {"server_hostname": "edge-7.cdn.example.net"} if (t[0] == "wss" and rand[0] % 3 == 0) else None
         case = Case(url, [DialSpec([("chunk", response("101", good_headers(k, sub=sub)))], rand=rand)],
-                    options=opts, seed_cookies=seed, tag="c10")
+                    options=opts, seed_cookies=seed, tag="c10", sslopt=sslopt)
         r = run_real(case)
         inp = {"url": url, "options": opts, "seed_cookies": list(seed), "rand": rand.hex(), "parts": list(parts)}
+        if sslopt:
+            inp["sslopt"] = sslopt
         size = len(json.dumps(inp, default=str))
         nontriv = t != DEFAULT
         hdr_kind = "none" if "header" not in opts else type(opts["header"]).__name__ + str(len(opts["header"]))
